@@ -57,7 +57,8 @@ int snoopy_util_string_append (char *destString, size_t destStringBufSize, const
     destStringSize          = strlen(destString);
     appendThisSize          = strlen(appendThis);
     destStringSizeRemaining = destStringBufSize - destStringSize;
-    if (destStringSizeRemaining < appendThisSize) {
+    if (destStringSizeRemaining <= appendThisSize) {
+        // No room for the appended text plus the terminating null character
         return SNOOPY_ERROR;
     }
 
